@@ -16,7 +16,7 @@ use crate::ring_like::digest;
 #[cfg(feature = "pem")]
 use crate::ENCODE_CONFIG;
 use crate::{
-	oid, write_distinguished_name, write_dt_utc_or_generalized,
+	check_time_encodable, oid, write_distinguished_name, write_dt_utc_or_generalized,
 	write_x509_authority_key_identifier, write_x509_extension, DistinguishedName, Error, Issuer,
 	KeyIdMethod, KeyPair, KeyUsagePurpose, SanType, SerialNumber,
 };
@@ -648,6 +648,9 @@ impl CertificateParams {
 		pub_key: &K,
 		issuer: Issuer<'_>,
 	) -> Result<CertificateDer<'static>, Error> {
+		check_time_encodable(self.not_before)?;
+		check_time_encodable(self.not_after)?;
+
 		let der = issuer.key_pair.sign_der(|writer| {
 			let pub_key_spki =
 				yasna::construct_der(|writer| serialize_public_key_der(pub_key, writer));
